@@ -427,6 +427,25 @@ def bounded(tier, seed):
                     bad(f"numeric literal {v!r} is not the canonical Real constant", {"literal": repr(v), "got": str(lit)})
             if len(failures) >= 6:
                 break
+        # ---- directed: every spelling of a numeric literal the library accepts (int / float / Fraction / strings in int, decimal, exponent and ratio
+        #      syntax, with surrounding blanks and signs); integral values -- however spelt -- are THE Int constant, the others THE Real constant
+        x0 = g.x()
+        for v in [3, -7, 0, 3.0, -4.0, 2.5, -0.0, Fraction(6, 2), Fraction(-8, 4), Fraction(7, 2), "3", " 3 ", "-4", "+5", "3.0", "2.", "-4.0", "6/2", " 6/2 ", "30e-1", "1e2", "0",
+                  "-0", "0.0", "0.5", ".5", "7/2", "-7/2", "25e-1", "1/3", str(2 ** 70), str(2 ** 70) + ".0"]:
+            evals += 1
+            try:
+                (lit,) = em.auto_promote(v)
+            except Exception as ex_:  # noqa
+                bad(f"auto_promote({v!r}) raised {type(ex_).__name__}", {"literal": repr(v)})
+                continue
+            fr = Fraction(v)
+            want = Int(fr.numerator) if fr.denominator == 1 else Real(fr)
+            if lit is not want:
+                bad(f"numeric literal {v!r} is not the canonical {'Int' if fr.denominator == 1 else 'Real'} constant", {"literal": repr(v), "got": f"{lit.node_type.name} {lit.constant_value()!r}"})
+            elif Plus(x0, v) is not Plus(x0, want) or LE(x0, v) is not LE(x0, want) or GE(x0, v) is not LE(want, x0):
+                bad(f"an expression written with the literal {v!r} is not the node written with its canonical constant", {"literal": repr(v)})
+            if len(failures) >= 6:
+                break
         # ---- identity == structure, on fresh environments, in both creation orders (a stale side table shows up only
         #      when a structurally different expression was built first)
         from unified_planning.environment import Environment
